@@ -28,6 +28,15 @@
     value of each API refusal of the model.  `StepRel` INCLUDES THE FRAME CONDITION: on a refusal
     the returned receiver is the old one, unchanged.
 
+  THIS FILE: the instances, the two structures and the result relations.  The method-by-method
+  theorems (`AddWithCount_rel`, `GetValueAtQuantile_rel`, `MergeWith_rel`, `Reweight_rel`, …,
+  `XAddWithCount_rel`, …) are in `DDS/Proofs/GenSketch2.lean`; property-level corollaries on the
+  generated code in `DDS/Props/GenSketchProps.lean`.
+
+  ERROR IDENTITY of `GetMaxValue` / `GetMinValue` on an empty sketch: the Go code hands back the
+  store's `errUndefinedMinIndex`, not `errEmptySketch`; the model has the single refusal `.empty`.
+  `GenSketch2.ExtRel` therefore names the store's error (values and nil-ness agree with `QRel`).
+
   DISCREPANCY found (model artefact, see `exact_addWithCount_zero_discrepancy`): the model's
   `XSketch.addWithCount` with a zero count returns the receiver unchanged, whereas the Go code has
   already run the plain `AddWithCount(value, 0)`, which executes `zeroCount += 0` for a value in
